@@ -22,7 +22,8 @@ impl Rng {
 #[derive(Clone, Debug)]
 enum Op {
     Mkdir(String),
-    Open(String, bool, usize),
+    /// name, O_CREAT, handle, mode, O_TMPFILE (then the name is used as the directory)
+    Open(String, bool, usize, u32, bool),
     Writev(usize, Vec<u8>),
     Readv(usize),
     Close(usize),
@@ -136,7 +137,9 @@ pub fn run(dir: &str, seed: u64, nbatches: usize, entries: usize) -> String {
             };
             let op = match rng.below(10) {
                 0 => pick_name(&mut rng, &mut used_names, &mut used_inos).map(Op::Mkdir),
-                1 | 2 => { let c = rng.below(3) != 0; pick_name(&mut rng, &mut used_names, &mut used_inos).map(|nm| { next_handle += 1; Op::Open(nm, c, next_handle) }) }
+                1 | 2 => { let c = rng.below(3) != 0; let tmp = rng.below(5) == 0;
+                    let mode = [0o644u32, 0o600, 0o640, 0o444, 0o755, 0o666, 0o200][rng.below(7) as usize];
+                    pick_name(&mut rng, &mut used_names, &mut used_inos).map(|nm| { next_handle += 1; Op::Open(nm, c && !tmp, next_handle, mode, tmp) }) }
                 3 | 4 => pick_handle(&mut rng, &mut used_handles, &mut used_inos).map(|h| { let l = 1 + rng.below(40) as usize; Op::Writev(h, (0..l).map(|_| b'a' + rng.below(26) as u8).collect()) }),
                 5 => pick_handle(&mut rng, &mut used_handles, &mut used_inos).map(Op::Readv),
                 6 => pick_handle(&mut rng, &mut used_handles, &mut used_inos).map(Op::Close),
@@ -183,9 +186,9 @@ pub fn run(dir: &str, seed: u64, nbatches: usize, entries: usize) -> String {
                 match op {
                     Op::Mkdir(nm) => { let (d, p, l) = path(nm, &mut keep_paths); hist.entry("mkdirat").and_modify(|c| *c += 1).or_insert(1);
                         IoUringSubmissionQueueEntry::new_mkdirat(d, UnixStr::from_bytes_unchecked(core::slice::from_raw_parts(p, l)), Mode::from(0o755), ud, fl) }
-                    Op::Open(nm, create, _) => { let (d, p, l) = path(nm, &mut keep_paths); hist.entry("openat").and_modify(|c| *c += 1).or_insert(1);
-                        let of = if *create { OpenFlags::O_RDWR | OpenFlags::O_CREAT } else { OpenFlags::O_RDWR };
-                        IoUringSubmissionQueueEntry::new_openat(d, UnixStr::from_bytes_unchecked(core::slice::from_raw_parts(p, l)), of, Mode::from(0o644), ud, fl) }
+                    Op::Open(nm, create, _, mode, tmp) => { let (d, p, l) = path(nm, &mut keep_paths); hist.entry(if *tmp { "openat-tmpfile" } else { "openat" }).and_modify(|c| *c += 1).or_insert(1);
+                        let of = if *tmp { OpenFlags::O_RDWR | OpenFlags::O_TMPFILE } else if *create { OpenFlags::O_RDWR | OpenFlags::O_CREAT } else { OpenFlags::O_RDWR };
+                        IoUringSubmissionQueueEntry::new_openat(d, UnixStr::from_bytes_unchecked(core::slice::from_raw_parts(p, l)), of, Mode::from(*mode), ud, fl) }
                     Op::Writev(h, _) => { hist.entry("writev").and_modify(|c| *c += 1).or_insert(1);
                         IoUringSubmissionQueueEntry::new_writev(Fd::try_new(ring_fds[h]).unwrap(), iovs.as_mut_ptr().add(i) as usize, 1, ud, fl) }
                     Op::Readv(h) => { hist.entry("readv").and_modify(|c| *c += 1).or_insert(1);
@@ -220,14 +223,24 @@ pub fn run(dir: &str, seed: u64, nbatches: usize, entries: usize) -> String {
             let ring_res = match by_ud.get(&ud) { Some(r) => *r as i64, None => return format!("mismatch batch {} no completion for user_data {} ({:?})", bi, ud, op) };
             if cancelled {
                 if ring_res != -125 { return format!("mismatch batch {} op {} {:?}: linked after a failure, expected -ECANCELED, ring {} (batch {:?} results {:?})", bi, i, op, ring_res, ops, comps); }
-                if let Op::Open(_, _, _) = op { /* nothing opened on either side */ }
+                if let Op::Open(..) = op { /* nothing opened on either side */ }
                 continue;
             }
             let p = |nm: &str| format!("{}/{}", b, nm);
             let (exp, what): (i64, String) = match op {
                 Op::Mkdir(nm) => (std::fs::DirBuilder::new().mode(0o755).create(p(nm)).map(|_| 0).unwrap_or_else(|e| errno_of(&e)), "mkdir".into()),
-                Op::Open(nm, create, h) => match std::fs::OpenOptions::new().read(true).write(true).create(*create).mode(0o644).open(p(nm)) {
-                    Ok(f) => { if ring_res >= 0 { ring_fds.insert(*h, ring_res as i32); direct.insert(*h, f); } (if ring_res >= 0 { ring_res } else { 0 }, "open".into()) }
+                Op::Open(nm, create, h, mode, tmp) => match std::fs::OpenOptions::new().read(true).write(true).create(*create).mode(*mode)
+                        .custom_flags(if *tmp { 0o20200000 /* O_TMPFILE = __O_TMPFILE | O_DIRECTORY */ } else { 0 }).open(p(nm)) {
+                    Ok(f) => {
+                        if ring_res >= 0 {
+                            // same permission bits on the file each side opened / created
+                            use std::os::unix::fs::MetadataExt;
+                            let rm = std::fs::metadata(format!("/proc/self/fd/{}", ring_res)).map(|m| m.mode() & 0o7777).unwrap_or(0o170000);
+                            let dm = f.metadata().map(|m| m.mode() & 0o7777).unwrap_or(0o170001);
+                            if rm != dm { return format!("mismatch batch {} op {} {:?}: file opened through the ring has mode {:o}, through the direct call {:o}", bi, i, op, rm, dm); }
+                            ring_fds.insert(*h, ring_res as i32); direct.insert(*h, f);
+                        }
+                        (if ring_res >= 0 { ring_res } else { 0 }, "open".into()) }
                     Err(e) => { if ring_res >= 0 { unsafe { sc::raw_syscall6(sc::nr::CLOSE, ring_res as usize, 0, 0, 0, 0, 0) }; } (errno_of(&e), "open".into()) } },
                 Op::Writev(h, d) => (direct[h].write_at(d, 0).map(|n| n as i64).unwrap_or_else(|e| errno_of(&e)), "write".into()),
                 Op::Readv(h) => { let mut buf = vec![0u8; 64]; let r = direct[h].read_at(&mut buf, 0).map(|n| n as i64).unwrap_or_else(|e| errno_of(&e));
